@@ -175,7 +175,9 @@ impl<'a> Lexer<'a> {
     }
 
     fn peek_next(&self) -> Option<char> {
-        let mut iter = self.source[self.position..].chars();
+        // `position` counts characters, not bytes: look ahead on the character iterator
+        // instead of slicing the source (which panics after a multi-byte character)
+        let mut iter = self.chars.clone();
         iter.next();
         iter.next()
     }
@@ -253,7 +255,7 @@ impl<'a> Lexer<'a> {
                 Some('"') => {
                     if self.peek_next() == Some('"') {
                         // Check for closing """
-                        let mut chars_copy = self.source[self.position..].chars();
+                        let mut chars_copy = self.chars.clone();
                         if chars_copy.next() == Some('"')
                             && chars_copy.next() == Some('"')
                             && chars_copy.next() == Some('"')
